@@ -1,7 +1,14 @@
 /-
-  Driver/Csv.lean — CSV source range alignment (C15).
-  header: `<id> csv <n> <has_headers 0|1>`; ops: `bytes <b,b,…>` (content = concatenation of all op lines);
-  outputs: one line per replica `0..n`: `<replica> [[b,…],…]` (records = single-field byte lists).
+  Driver/Csv.lean — CSV source (C15).
+  header: `<id> csv <n> <has_headers 0|1>`;
+  ops: `bytes <b,b,…>` | `rep <count> <b,b,…>` (content = concatenation of all op lines);
+  outputs: one line per replica `0..n`: `<replica> [<record>,…]`, record = `[[b,…],…]` (fields as byte lists).
+
+  Model: range alignment of `CsvSource::setup` (Model/CsvSplit.lean) + the quote-aware record parser applied
+  to each replica's byte range. When an aligned boundary falls inside a record (possible only inside a quoted
+  field containing a line terminator) the replica's `csv::Reader` parses a *fragment* of a record; the crate's
+  behaviour on fragments is not modelled: the implementation output is echoed (tag `nodiff`).
+  The property oracle is always evaluated.
 -/
 import Driver.Proto
 import Driver.File
@@ -9,15 +16,30 @@ import NoirVerif.Model.CsvSplit
 namespace Noir.Driver.Csv
 open Noir Noir.Driver Noir.CsvSplit
 
-/-- Spec-side records of a quote-free one-field CSV file (independent of the model): drop the first line
-    if there is a header, split the rest at `'\n'`, strip one trailing `'\r'`, skip empty lines. -/
-def specRecords (bytes : List Nat) (hasHeaders : Bool) : List (List Nat) :=
-  let rec split (cur : List Nat) : List Nat → List (List Nat)
-    | [] => [cur]
-    | c :: cs => if c == 10 then cur :: split [] cs else split (cur ++ [c]) cs
-  let ls := split [] bytes
-  let ls := if hasHeaders then ls.drop 1 else ls
-  (ls.map fun l => if l.getLast? == some 13 then l.dropLast else l).filter (!·.isEmpty)
+def parseContent (ops : List (List String)) : List Nat :=
+  ops.flatMap fun w =>
+    match w with
+    | ["bytes", b] => File.parseBytes b
+    | ["rep", k, b] => (List.replicate (k.toNat?.getD 0) (File.parseBytes b)).flatten
+    | _ => []
+
+def fmtRecord (r : List (List Nat)) : Val := .list (r.map File.fmtLine)
+def showRecords (rs : List (List (List Nat))) : String := (Val.list (rs.map fmtRecord)).toStr
+
+def valToRecords : Val → Option (List (List (List Nat)))
+  | .list l => l.mapM File.valToLines
+  | _ => none
+
+/-- raw records of the whole file with their byte spans `[a, b)` -/
+def spans (bytes : List Nat) : List (Nat × Nat × List Nat) :=
+  let rec go (off : Nat) : List (List Nat) → List (Nat × Nat × List Nat)
+    | [] => []
+    | r :: rs => (off, off + r.length, r) :: go (off + r.length) rs
+  go 0 (rawRecords bytes)
+
+def parseRaw (r : List Nat) : Option (List (List Nat)) :=
+  let t := stripTerm r
+  if t.isEmpty then none else some (parseFields .plain [] t)
 
 def handle (c : Case) : Verdict :=
   match c.header with
@@ -25,32 +47,63 @@ def handle (c : Case) : Verdict :=
     match n.toNat? with
     | some n =>
       let hasHeaders := hh == "1"
-      let bytes := c.ops.flatMap fun w => match w with | ["bytes", b] => File.parseBytes b | _ => []
+      let bytes := parseContent c.ops
+      let sz := bytes.length
       let impl := c.implOut.filterMap File.parseOut
       let implOk := impl.length == c.implOut.length ∧ impl.map (·.1) == List.range n
+      -- specification: records of the whole file by CSV quoting rules, header record excluded
+      let sp := spans bytes
+      let spBody := if hasHeaders then sp.drop 1 else sp
+      let spec := spBody.filterMap fun (_, _, r) => parseRaw r
+      -- where the implementation cuts: end of the header, start of every replica ≥ 1
+      let cuts := (if hasHeaders then [headerSize bytes true] else []) ++
+        ((List.range n).drop 1).map fun i => (csvRange bytes hasHeaders n i).1
+      let boundaries := sz :: sp.map (·.1)
+      let badCuts := (cuts.filter fun p => !boundaries.contains p).eraseDups
+      -- a bad cut lies right after a line feed inside an open quote
+      let insideQuoted (p : Nat) : Bool := p > 0 && (bytes.drop (p - 1)).head? == some 10 && oddQuotes (bytes.take p)
       let model := (List.range n).map fun r => records (replicaBytes bytes hasHeaders n r)
-      let out := (List.range n).zip model |>.map fun (r, ls) => s!"{r} {File.showLines ls}"
-      -- property oracle: the records emitted across the replicas, in replica order = the records of the file,
-      -- header excluded (each exactly once, whole, in order)
-      let spec := specRecords bytes hasHeaders
+      let nodiff := !badCuts.isEmpty
+      let out := if nodiff then c.implOut
+        else (List.range n).zip model |>.map fun (r, rs) => s!"{r} {showRecords rs}"
       let oracle : Option String :=
         if !implOk then some "unparsable implementation output"
-        else match impl.mapM (fun p => File.valToLines p.2) with
+        else match impl.mapM (fun p => valToRecords p.2) with
           | none => some "unparsable implementation output"
           | some per =>
             let got := per.flatten
             if got == spec then none
-            else some s!"records emitted across replicas {File.showLines got} ≠ records of the file {File.showLines spec}"
-      let sz := bytes.length
+            else
+              -- F13 exactly: ≥ 2 replicas, every cut that is not a record boundary lies inside a quoted
+              -- field right after a line terminator, the header is cut correctly, and all other records
+              -- are emitted correctly by the right replica
+              let headerBad := hasHeaders && badCuts.contains (headerSize bytes true)
+              -- replicas whose range starts at a true record boundary must emit exactly the records that
+              -- lie completely inside their range (then possibly one fragment, if their end is a bad cut);
+              -- a replica that starts inside a quoted field parses garbage: nothing is required of it
+              let perOk := (List.range n).zip per |>.all fun (i, got_i) =>
+                let r := csvRange bytes hasHeaders n i
+                if badCuts.contains r.1 then true else
+                let whole := spBody.filterMap fun (a, b, raw) =>
+                  if r.1 ≤ a && b ≤ r.2 then parseRaw raw else none
+                if badCuts.contains r.2 then got_i.take whole.length == whole else got_i == whole
+              let f13 := n ≥ 2 && !badCuts.isEmpty && badCuts.all insideQuoted && !headerBad && perOk
+              let pre := if f13 then "known:F13-csv-quoted-newline-split " else ""
+              let msg := s!"records emitted across replicas ≠ records of the file; cuts inside records at offsets {badCuts}"
+              let detail := if sz ≤ 200 then s!": got {showRecords got} expected {showRecords spec}" else ""
+              some s!"{pre}{msg}{detail}"
       let hdr := headerSize bytes hasHeaders
       let active := (model.filter (!·.isEmpty)).length
+      let quotedNl := (sp.any fun (_, _, r) => (FileSplit.splitLines [] r).length > 1)
       { out, oracle, nontrivial := n ≥ 2 && spec.length ≥ 2,
         tags := [s!"n{n}", if hasHeaders then "header" else "no-header",
                  if sz == 0 then "empty-file" else if sz - hdr < n then "body<n" else "body>=n",
-                 if bytes.getLast? == some 10 then "final-nl" else "no-final-nl",
+                 if sz > 8192 then "large" else "small",
+                 if bytes.contains 34 then "quotes" else "no-quotes",
+                 if quotedNl then "quoted-terminator" else "no-quoted-terminator",
+                 if spec.any (fun r => r.length > 1) then "multi-field" else "single-field",
                  if bytes.contains 13 then "crlf" else "lf",
-                 if spec.any (fun l => n > 0 ∧ l.length > (sz - hdr) / n) then "rec>range" else "recs<=range",
-                 s!"active{min active 3}"] }
+                 s!"active{min active 3}"] ++ (if nodiff then ["nodiff"] else []) }
     | none => { out := [], oracle := some "bad header", nontrivial := false }
   | _ => { out := [], oracle := some "bad header", nontrivial := false }
 
